@@ -2782,6 +2782,7 @@ def run(repo: Repo, R: Report) -> None:
     # role, and the parameters it receives are expanded back to the kwargs / step / class attributes they are
     # computed from, so temporaries, statement order of independent statements and keyword order do not matter.
     r_v = R.rule("C03-D3-variants", "the three generated bodies (source, operation, probe) materialise, drop from-context keys, select provided kwargs by presence, iterate with the class' mode/broadcast, evaluate every expression on the step, merge, filter to the element's parameter names and call the element once per step in order; they agree with each other on these steps", 24)
+    r_inst = R.rule("C03-D3-element-instance-per-step", "element i is the wrapped processor applied to the input with the merged parameters of step i and nothing else: the processor object whose process() yields the element of a step is constructed (self._element(..)) inside that step of the loop, on every path to the call - no object made before the loop (or in an earlier step) is applied again, so no per-object state is carried from one step to the next; a source is applied through its class", 3)
     variants = variant_bodies(repo)
     create_fn = repo.func(SWEEP, CREATE)
     KEEP = ("_materialize_sequences", "_iterate_sweep", "_merge_call_parameters", "_publish_created_context")
@@ -2872,7 +2873,29 @@ def run(repo: Repo, R: Report) -> None:
             ok = ok and bool(inits) and all(v is not None and kany(["[]", "list()"], v) is not None for v in inits)
             ok = ok and [s_ for s_, _r in mutation_sites(FV.fn, {lst})] == [apps[0]]
         R.check(ok, r_v, SWEEP, qn, "results.append(<element>(**call_params)) once per step", "the wrapped processor is not applied exactly once per step, in step order, to the input data with the merged parameters", loop.lineno)
-        rets = [n for n in walk_no_nested(FV.fn) if isinstance(n, ast.Return)]
+        # the object that is invoked for step i is made in step i
+        if f.name == "_process_logic":
+            ok_i, line_i, why_i = len(els) == 1, loop.lineno, "the processor object a step is applied with was not found"
+            if ok_i:
+                el_call, recv = els[0][0], els[0][1]["_I_"]
+                at, head = FV.nid(el_call), FV.nid(loop)
+                lnodes = _loop_nodes(FV, loop) - {head}
+                if isinstance(recv, ast.Name):
+                    # every path from the loop head (one step taken) to the call binds the receiver on the way - by what the
+                    # element-call discovery above has shown to be a construction `self._element(..)`
+                    in_loop = {d for d in FV.defnodes.get(recv.id, []) if d in lnodes}
+                    body_start = [t for t, l in gv.succ[head] if l == "T"]
+                    ok_i = at in lnodes and at not in _reach(gv, body_start, in_loop)
+                    outer = [d for d in FV.rdefs(recv.id, at)[0] if d not in lnodes]
+                    if outer:
+                        line_i = getattr(gv.nodes[outer[0]].ast, "lineno", loop.lineno)
+                else:
+                    ok_i = isinstance(recv, ast.Call) and at in lnodes  # constructed in the statement that applies it
+                why_i = f"the wrapped processor is instantiated outside the step loop (`{_u(recv)[:60]}` is bound before the loop / not on every path through an iteration) and one object is applied to several steps: per-object state it keeps between process() calls (buffers, counters, lazily initialised members) flows from step i to step i+1, so element i is no longer the wrapped processor applied to the input with the parameters of step i alone"
+            R.check(ok_i, r_inst, SWEEP, qn, "element_instance = self._element(..) inside the step loop; element_instance.process(data, **call_params)", why_i, line_i)
+        else:
+            R.check(len(els) == 1, r_inst, SWEEP, qn, "cls._element.get_data(**call_params): the source is applied through its class, no processor object is kept", "the call that produces a source element was not found", loop.lineno)
+        rets =[n for n in walk_no_nested(FV.fn) if isinstance(n, ast.Return)]
         is_probe = "Probe" in qn
         rx = [x for r_ in rets for x in (FV.expand(r_.value, FV.nid(r_), keep=(lst,)) if r_.value is not None else [ast.Constant(value=None)])]
         if is_probe:
